@@ -40,6 +40,8 @@ pub enum Framing {
     /// taken on another platform carry (AF_INET6 is 10, 24, 28 or 30 depending on the OS; a big-endian
     /// capture host writes the word the other way round)
     NullFamily { fam: u8, big_endian: bool },
+    /// Ethernet with one 802.1Q / 802.1ad tag (trunk and mirror ports): TPID, TCI, then the real EtherType
+    Vlan { tpid: u16, tci: u16 },
 }
 
 #[derive(Clone, Debug, Serialize, Deserialize)]
@@ -243,11 +245,30 @@ pub fn wrap(ip: &[u8], v4: bool, framing: Framing) -> Vec<u8> {
             f.extend_from_slice(ip);
             f
         }
+        Framing::Vlan { tpid, tci } => {
+            let mut f = Vec::with_capacity(18 + ip.len());
+            f.extend_from_slice(&[0x02, 0, 0, 0, 0, 0x01, 0x02, 0, 0, 0, 0, 0x02]);
+            f.extend_from_slice(&tpid.to_be_bytes());
+            f.extend_from_slice(&tci.to_be_bytes());
+            f.extend_from_slice(if v4 { &[0x08, 0x00] } else { &[0x86, 0xDD] });
+            f.extend_from_slice(ip);
+            f
+        }
         Framing::NullFamily { fam, big_endian } => {
             let mut f = if big_endian { (fam as u32).to_be_bytes().to_vec() } else { (fam as u32).to_le_bytes().to_vec() };
             f.extend_from_slice(ip);
             f
         }
+    }
+}
+
+/// where the IP header starts in a frame built with this framing (known, not guessed from the bytes)
+pub fn ip_offset_of(framing: Framing) -> usize {
+    match framing {
+        Framing::RawIp => 0,
+        Framing::Ethernet => 14,
+        Framing::Vlan { .. } => 18,
+        Framing::Null1e | Framing::NullAf | Framing::NullFamily { .. } => 4,
     }
 }
 
